@@ -315,6 +315,10 @@ func valueLeavesOpt(v ssa.Value, chain []*ssa.Call, depth int, stopAtCells bool)
 		if ls := closureParamLeaves(x, depth); ls != nil {
 			return ls
 		}
+	case *ssa.Field:
+		if ls := structFieldLeaves(x.X, x.Field, chain, depth, stopAtCells); ls != nil {
+			return ls
+		}
 	case *ssa.Call:
 		if ls := helperResultLeaves(x, 0, chain, depth); ls != nil {
 			return ls
@@ -327,6 +331,34 @@ func valueLeavesOpt(v ssa.Value, chain []*ssa.Call, depth int, stopAtCells bool)
 		}
 	case *ssa.UnOp:
 		if x.Op == token.MUL {
+			// the same through the spill of a value receiver (t0 = local l; *t0 = l; … *&t0.present)
+			if fa, isFA := x.X.(*ssa.FieldAddr); isFA {
+				if al, isAl := fa.X.(*ssa.Alloc); isAl {
+					var whole []ssa.Value
+					fieldStores := false
+					for _, ref := range refsOf(al) {
+						switch y := ref.(type) {
+						case *ssa.Store:
+							if y.Addr == ssa.Value(al) {
+								whole = append(whole, y.Val)
+							}
+						case *ssa.FieldAddr:
+							for _, r2 := range refsOf(y) {
+								if st, isSt := r2.(*ssa.Store); isSt && st.Addr == ssa.Value(y) {
+									fieldStores = true
+								}
+							}
+						}
+					}
+					if len(whole) == 1 && !fieldStores {
+						if _, isP := whole[0].(*ssa.Parameter); isP {
+							if ls := structFieldLeaves(whole[0], fa.Field, chain, depth, stopAtCells); ls != nil {
+								return ls
+							}
+						}
+					}
+				}
+			}
 			if cell := cellOf(x.X); cell != nil && !stopAtCells {
 				sts := storesTo(cell)
 				if len(sts) > 0 && len(sts) <= 4 {
@@ -547,4 +579,71 @@ func literalCallArg(p *ssa.Parameter) ssa.Value {
 		return nil
 	}
 	return arg
+}
+
+// structFieldLeaves: field #field of the struct value base. l.present inside func (l lookup[V]) typed(), called as l.typed() on
+// a local `var l lookup[V]` whose fields were assigned one by one (l.stored, l.present = m.m.Load(key)): what was stored into
+// that field of the variable. nil when it cannot be told.
+func structFieldLeaves(base ssa.Value, field int, chain []*ssa.Call, depth int, stopAtCells bool) []leafVal {
+	bchain := chain
+	for d := 0; d < 4; d++ {
+		ct, isCT := base.(*ssa.ChangeType)
+		if !isCT {
+			break
+		}
+		base = ct.X
+	}
+	if prm, isP := base.(*ssa.Parameter); isP {
+		mapped := false
+		for i := len(chain) - 1; i >= 0 && !mapped; i-- {
+			cal := staticCallee(&chain[i].Call)
+			if cal == nil || origin(prm.Parent()) != cal {
+				continue
+			}
+			for k, q := range prm.Parent().Params {
+				if q == prm && k < len(chain[i].Call.Args) {
+					base, bchain = chain[i].Call.Args[k], chain[:i]
+					mapped = true
+				}
+			}
+			break
+		}
+		if !mapped {
+			return nil
+		}
+	}
+	ld, isLd := base.(*ssa.UnOp)
+	if !isLd || ld.Op != token.MUL {
+		return nil
+	}
+	al, isAl := ld.X.(*ssa.Alloc)
+	if !isAl {
+		return nil
+	}
+	var vals []ssa.Value
+	for _, ref := range refsOf(al) {
+		switch y := ref.(type) {
+		case *ssa.FieldAddr:
+			if y.Field != field {
+				continue
+			}
+			for _, r2 := range refsOf(y) {
+				if st, isSt := r2.(*ssa.Store); isSt && st.Addr == ssa.Value(y) {
+					vals = append(vals, st.Val)
+				}
+			}
+		case *ssa.Store:
+			if y.Addr == ssa.Value(al) {
+				return nil
+			}
+		}
+	}
+	if len(vals) == 0 || len(vals) > 4 {
+		return nil
+	}
+	var out []leafVal
+	for _, sv := range vals {
+		out = append(out, valueLeavesOpt(sv, bchain, depth+1, stopAtCells)...)
+	}
+	return out
 }
